@@ -174,6 +174,18 @@ pub struct Universe {
 }
 
 impl Universe {
+    /// the actors every scenario may use, so that observations do not depend on who acted
+    pub fn standard() -> Universe {
+        let mut u = Universe::default();
+        for i in 0..3u8 {
+            u.addrs.insert(addr_s(pk_addr(i)));
+            u.addrs.insert(addr_s(sign::signer_addr(i)).to_lowercase());
+        }
+        u.addrs.insert(CONTROLLER.to_string());
+        u.addrs.insert(DEAD.to_string());
+        u.addrs.insert(Tgt::s().resolve().unwrap());
+        u
+    }
     pub fn scan(&mut self, v: &Value) {
         match v {
             Value::String(s) => {
@@ -253,7 +265,7 @@ impl World {
             max_ever: None,
             epoch: 0,
             seq: 0,
-            uni: Universe::default(),
+            uni: Universe::standard(),
             next_ts: None,
             next_hash: None,
             zero_hash: false,
